@@ -128,7 +128,8 @@ class Recorder(object):
 
 
 def load_findings(prop_id=None):
-    path = os.path.join(VERIF, 'known_findings.json')
+    # the override exists for scratch experiments (tools/); registered commands never set it
+    path = os.environ.get('VERIF_KNOWN_FINDINGS') or os.path.join(VERIF, 'known_findings.json')
     try:
         with open(path) as f:
             data = json.load(f)
